@@ -225,11 +225,14 @@ def run(ctx, out):
     tot = collections.Counter()
     bad = []
     samples = []
+    nontrivial = set()
     with ProcessPoolExecutor(C.NPROC) as ex:
         for r in ex.map(chaos_one, jobs, chunksize=8):
             tot["sends"] += r["sends"]
             tot["closed_connections"] += r["closed"]
             tot["script_bytes"] += r["bytes"]
+            if r["closed"] >= 1 and r["sends"] >= 2:
+                nontrivial.add((r["closed"], r["sends"] // 4, r["bytes"] // 200))
             if r["sample"]:
                 samples.append(r["sample"])
             if r["fails"]:
@@ -244,8 +247,9 @@ def run(ctx, out):
     out.coverage["chaos_totals"] = dict(tot)
     out.coverage["chaos_failures"] = len(bad)
     out.coverage["evaluations"] = out.coverage.get("evaluations", 0) + n
-    out.coverage["distinct_nontrivial"] = out.coverage.get("distinct_nontrivial", 0) + sum(1 for _ in range(1)) + min(n, tot["closed_connections"])
-    out.coverage["rule"] = out.coverage.get("rule", "") + "; chaos: a scenario counts once per connection the daemon had to drop"
+    out.coverage["distinct_nontrivial"] = out.coverage.get("distinct_nontrivial", 0) + len(nontrivial)
+    out.coverage["rule"] = out.coverage.get("rule", "") + ("; chaos: non-trivial = the daemon dropped at least one connection and sent at least two frames; "
+                                                            "distinct = different (connections dropped, frames sent / 4, script size / 200) signature")
     out.coverage["samples"] = (out.coverage.get("samples", []) + [{"chaos_script_head": s} for s in samples[:3]])[:8]
     out.coverage["chaos_wall_s"] = round(time.time() - t0, 1)
     out.assumptions += ["memory safety is searched (ASan/UBSan on the assembled daemon), not proved: cJSON, http-parser, zlib and sha1 internals are not modelled",
